@@ -650,7 +650,9 @@ class C03(PropBase):
         "text": "partial: theorems (Coq, all inputs, debug and release arithmetic) that Panic is unreachable in the models of the anchored sites outside the "
                 "unwinder — /proc limits line splitting and indexing, guard-page `end + 1` adjacency, the implicit stack access of call/push, module "
                 "end addresses given the readers' size filter, the printers' instruction - module/function/source-line base subtractions given the "
-                "C08/C11 lookup facts (module and unloaded-module parts derived from C08 here), threads[requesting_thread]; refutations with "
+                "C08/C11 lookup facts (module and unloaded-module parts derived from C08 here), threads[requesting_thread], x86 argument recovery (splitting a function name of arbitrary Unicode text never slices inside a "
+                "character; read-head arithmetic); c03_render_total_discharged removes the frame hypotheses via C08 and the imported C11 theorems; "
+                "c03_process_total_partial states all stages together with C05's imported frame bound; refutations with "
                 "witnesses for the three defects fixed in /repo (F-C03b, F-C03c, F-C03g). The models are compared with whole-dump processing on "
                 "generated site cases. Everything else (unwinder loop, symbol walkers, disassembler, JSON writer, scheduling) is covered by search only: "
                 "structured hostile dumps x generated/corrupted symbols x three option sets through process_minidump_with_options and print / "
